@@ -126,6 +126,7 @@ fn main() {
     let fail_fast = !flag(&args, "--no-failfast");
     let touch_yield = !flag(&args, "--no-touch-yield");
     let stop_first = flag(&args, "--stop-first");
+    if flag(&args, "--no-probe") { interp::PROBE.store(false, std::sync::atomic::Ordering::SeqCst); }
     match cmd {
         "gen" => {
             let pname = arg(&args, "--profile").unwrap_or("core");
